@@ -1,6 +1,6 @@
 SPECIFICATION Spec
 CONSTANTS
-  NMax = 7
+  NMax = 9
   St = 0
 INVARIANT ReachStop
 CHECK_DEADLOCK FALSE
